@@ -83,7 +83,8 @@ type c10pre struct {
 var c10pres = []c10pre{
 	{"absent", "out.go", func() {}},
 	{"sentinel-file", "out.go", func() {
-		os.WriteFile("out.go", []byte("SENTINEL\n"), 0o600)
+		// longer than anything the tool writes: a write without truncation leaves a tail
+		os.WriteFile("out.go", []byte("SENTINEL\n"+strings.Repeat("// tail of the previous file\n", 8000)), 0o600)
 		old := time.Unix(1_000_000_000, 0)
 		os.Chtimes("out.go", old, old)
 	}},
